@@ -1,6 +1,7 @@
 """Batch trace validation: traces recorded from the implementation -> TLC -> verdicts."""
 import json
 import os
+import threading
 
 from . import tlc
 from .common import scratch, MachineryError
@@ -9,44 +10,65 @@ CFG = ("SPECIFICATION TraceSpec\nCHECK_DEADLOCK FALSE\n"
        "CONSTANTS TInit <- {p}Init\n  TStep <- {p}Step\n  TCheck <- {p}Check\n")
 
 _n = [0]
+_lock = threading.Lock()
 
 
-def validate(module, prefix, traces, run=None, label=None, timeout=1200, max_bytes=24_000_000):
+def _clean(x):
+    """TLC's JSON reader has no null: None -> "None" (only configuration records carry it)."""
+    if x is None:
+        return "None"
+    if isinstance(x, dict):
+        return {k: _clean(v) for k, v in x.items()}
+    if isinstance(x, (list, tuple)):
+        return [_clean(v) for v in x]
+    return x
+
+
+def validate(module, prefix, traces, run=None, label=None, timeout=1200, max_bytes=24_000_000,
+             parallel=4):
     """traces: list of {"cfg":..., "steps":[{"i":..., "o":...}, ...]} (plus free extra keys).
     Returns a list of failures {"trace": index into `traces`, "t": step (1-based), "err": clause}.
     Raises MachineryError when TLC did not account for every step of every trace."""
-    failures = []
-    batch, size, base = [], 0, 0
-    batches = []
-    for tr in traces:
-        doc = {"cfg": tr["cfg"], "steps": tr["steps"]}
-        s = len(json.dumps(doc, separators=(",", ":")))
-        if batch and size + s > max_bytes:
+    from concurrent.futures import ThreadPoolExecutor
+    docs = [{"cfg": _clean(tr["cfg"]), "steps": tr["steps"]} for tr in traces]
+    sizes = [len(json.dumps(d, separators=(",", ":"))) for d in docs]
+    total = sum(sizes)
+    limit = min(max_bytes, max(1_500_000, total // parallel + 1))
+    batches, batch, size, base = [], [], 0, 0
+    for d, s in zip(docs, sizes):
+        if batch and size + s > limit:
             batches.append((base, batch))
             base += len(batch)
             batch, size = [], 0
-        batch.append(doc)
+        batch.append(d)
         size += s
     if batch:
         batches.append((base, batch))
-    for base, batch in batches:
-        _n[0] += 1
-        path = os.path.join(scratch(), f"traces{_n[0]}.json")
+
+    def one(arg):
+        base, batch = arg
+        with _lock:
+            _n[0] += 1
+            path = os.path.join(scratch(), f"traces{_n[0]}.json")
         with open(path, "w") as f:
             json.dump(batch, f, separators=(",", ":"))
         res = tlc.run(module, CFG.format(p=prefix), env={"TRACE_FILE": path}, timeout=timeout,
-                      workers=4)
-        tlc.require_ok(res, f"trace validation {module}")
+                      workers=4, jvm=("-XX:+UseParallelGC", "-XX:ParallelGCThreads=4"))
         os.unlink(path)
+        return base, batch, res
+
+    failures = []
+    with ThreadPoolExecutor(max_workers=parallel) as ex:
+        results = list(ex.map(one, batches))
+    for base, batch, res in results:
+        tlc.require_ok(res, f"trace validation {module}")
         fails = res.edges("FAIL")
         expect = sum(len(tr["steps"]) + 1 for tr in batch)
         failed_tids = set()
         for fl in fails:
             failures.append({"trace": base + fl["tid"] - 1, "t": fl["t"], "err": fl["err"]})
             failed_tids.add(fl["tid"])
-        # a failing chain stops right after the failing step
-        for fl in fails:
-            expect -= len(batch[fl["tid"] - 1]["steps"]) - fl["t"]
+            expect -= len(batch[fl["tid"] - 1]["steps"]) - fl["t"]   # a failing chain stops there
         if res.errors or res.distinct != expect:
             raise MachineryError(
                 f"{module}: TLC accounted for {res.distinct} states, expected {expect}; "
